@@ -62,7 +62,8 @@ def split_go(res):
 
 
 def correspondence(ctx, binp, tier, budget):
-    for f in glob.glob(os.path.join(ctx.work, "cases.*")) + glob.glob(os.path.join(ctx.work, "out.*")):
+    for f in (glob.glob(os.path.join(ctx.work, "cases.*")) + glob.glob(os.path.join(ctx.work, "out.*"))
+              + glob.glob(os.path.join(ctx.work, "c12.deadlocks"))):
         os.remove(f)
     old = ctx.tier
     ctx.tier = tier
@@ -91,7 +92,7 @@ def correspondence(ctx, binp, tier, budget):
 
 
 def report(ctx, r, limit=3):
-    bad = sorted(r["bad"], key=lambda i: (len(r["cases"][i]), i))
+    bad = sorted(r["bad"], key=lambda i: (r["gores"].get(i, "").startswith("SKIPPED"), len(r["cases"][i]), i))
     for i in bad[:limit]:
         g, tr = split_go(r["gores"].get(i, "MISSING-RESULT"))
         m, attrs = r["model"].get(i, ("MISSING", {}))
